@@ -134,13 +134,15 @@ public:
       if (fam == 0) {
         switch (r.Below(5)) {
         case 0: if (r.Pct(8)) { static const std::vector<int> sz{ 8, 10, 12, 16, 17, 18, 20 }; op.kind = "RangeSet"; op.n = { r.Pick(sz) }; return true; }   // a wider enumerated set: factor for lazy products of a few hundred tuples
-          op.kind = "Val"; op.n = { r.Range(0, elems) }; return true;
+          op.kind = "Val"; op.n = { r.Range(0, elems) }; if (r.Pct(5)) { static const std::vector<int64_t> far{ -2147483647, -2000000000, -1073741824, 1073741824, 2000000000, 2147483647 }; op.n = { r.Pick(far) }; }   // integers further apart than INT32_MAX
+          return true;
         case 1: { op.kind = "Tuple"; const int k = r.Range(2, 3); for (int i = 0; i < k; ++i) op.n.push_back(anyH()); std::vector<std::string> parts; for (auto x : op.n) parts.push_back(H[static_cast<size_t>(x)].ty); if (Depth(TupleType(parts)) > 4) continue; return true; }
         case 2: { op.kind = "Set"; const auto first = anyH(); const auto same = OfType(H[static_cast<size_t>(first)].ty); if (Depth(H[static_cast<size_t>(first)].ty) > 3) continue; op.n = { first }; const int k = r.Range(0, 4); for (int i = 0; i < k; ++i) op.n.push_back(static_cast<int64_t>(r.Pick(same))); return true; }
         case 3: { op.kind = "EmptySet"; const auto h = anyH(); if (Depth(H[static_cast<size_t>(h)].ty) > 3) continue; op.n = { h }; return true; }
         default: { op.kind = "Singleton"; const auto h = anyH(); if (Depth(H[static_cast<size_t>(h)].ty) > 3) continue; op.n = { h }; return true; }
         }
       } else if (fam == 1) {
+        if (r.Pct(3)) { op.kind = "BigProduct"; op.n = { r.Range(2, 5), r.Range(10, 30) }; return true; }   // products of power sets: cardinalities beyond 2^32 / 2^64
         if (r.Pct(6)) { static const std::vector<int> ns{ 9, 12, 16, 20, 27, 28, 29, 30, 30 }; op.kind = "BigBoolean"; op.n = { r.Pick(ns), static_cast<int64_t>(r.Below(1u << 30)) }; return true; }   // power sets too big to enumerate: O(1) facts only
         if (sets.empty()) continue;
         if (r.Pct(50)) {
@@ -292,6 +294,20 @@ public:
       if (p.B().Contains(Factory::SetV(sub))) { c.Fail("C15", "membership", k + "/foreign", "a set with a foreign element is a member of the power set"); return; }
       std::vector<StructuredData> seen; int cnt = 0;
       for (const auto& e : p.B()) { if (++cnt > 6) break; if (!e.IsCollection() || !e.B().IsSubsetOrEq(b.B())) { c.Fail("C15", "iteration", k, "iteration of a power set yields something that is not a subset of the base"); return; } for (auto& s0 : seen) if (s0 == e) { c.Fail("C15", "iteration", k + "/repeat", "iteration of a power set yields an element twice"); return; } seen.push_back(e); }
+    }
+    else if (k == "BigProduct") {
+      // a product of k power sets of n-element bases: far too big to enumerate (and, for k*n >= 64, beyond 64-bit counting). Whatever
+      // cardinality is reported for it, it is not empty, not equal to the empty set, and contains the tuple of empty sets
+      const int kf = static_cast<int>(std::clamp<int64_t>(op.N(0), 2, 5)), n = static_cast<int>(std::clamp<int64_t>(op.N(1), 1, 30));
+      std::vector<int32_t> base; for (int i = 0; i < n; ++i) base.push_back(i);
+      std::vector<StructuredData> f, empties; for (int i = 0; i < kf; ++i) { f.push_back(Factory::Boolean(Factory::SetV(base))); empties.push_back(Factory::EmptySet()); }
+      const auto p = Factory::Decartian(f);
+      c.Oracle("big_product"); c.Probe("big_product");
+      if (p.B().IsEmpty() || p.B().Cardinality() <= 0) { c.Fail("C15", "cardinality", k, "a product of " + std::to_string(kf) + " power sets of " + std::to_string(n) + "-element sets reports IsEmpty=" + std::to_string(p.B().IsEmpty()) + " Cardinality=" + std::to_string(p.B().Cardinality())); return; }
+      if (!p.B().Contains(Factory::Tuple(empties))) { c.Fail("C15", "membership", k, "the tuple of empty sets is not a member of a product of power sets"); return; }
+      if (p == Factory::EmptySet()) { c.Fail("C15", "equality", k, "a non-empty product equals the empty set"); return; }
+      int cnt = 0; for (const auto& e : p.B()) { if (++cnt > 3) break; if (!e.IsTuple() || e.T().Arity() != kf) { c.Fail("C15", "iteration", k, "iteration of a product yields something that is not a tuple of the right arity"); return; } }
+      if (cnt == 0) { c.Fail("C15", "iteration", k, "iteration of a non-empty product yields nothing"); return; }
     }
     else if (k == "Decartian") {
       std::vector<StructuredData> f; std::vector<const MV*> ms; std::vector<std::string> tys; size_t prod = 1; int anyLazy = 0;
